@@ -1,5 +1,6 @@
 # stages per property; executed by ./check.  S(name, flavour, bin, args, env, tiers, kind, timeout)
 STAGES = {
+    "C01": [S("rel", "rel", "c01")],
     "C05": [S("rel", "rel", "c05")],
     "C07": [S("rel", "rel", "c07")],
     "C08": [S("rel", "rel", "c08")],
